@@ -651,10 +651,12 @@ def rewriteOrSame (t : RwTrie) (features : List Str) : Outcome (List Str) :=
   | .err => .err
   | .panic => .panic
 
-/-- `Trainer::extract_feature_set` (order: unigram, left, right). -/
+/-- `Trainer::extract_feature_set` (order: unigram, left, right).  `parse_csv_row` is the
+repaired one of finding F18 (`parseCsvRowBytes true`: output buffer sized by the row; the
+pinned `[0; 4096]` buffer panics on cells of 4096 bytes or more). -/
 def extractFeatureSet (cfg : Config) (feature : Str) (cate : Nat) :
     Outcome (FeatureSet × Extractor) :=
-  match ofLex (LexCsv.parseCsvRowBytes feature) with
+  match ofLex (LexCsv.parseCsvRowBytes true feature) with
   | .err => .err
   | .panic => .panic
   | .ok features =>
